@@ -269,6 +269,8 @@ func RoundTripExtras(sys semver.System) []string {
 		out = append(out, ">1.2.9223372036854775806", ">=1.2.9223372036854775806", "<=1.9223372036854775806.0", ">9223372036854775806.0.0")
 	case semver.NuGet:
 		out = append(out, "1.2.3.*", "[1.2.3.*,)", "1.2.3.4", "[1.2.3.4,1.2.3.5)", "(1.2.3.4,)", "1.2.3.4-*")
+		// prerelease bounds in upper and mixed case (the set text prints them in lower case)
+		out = append(out, "[1.0.0-Beta,2.0.0)", "(1.0.0-RC,)", "[1.0.0-alpha,1.0.0-Zeta]", "(,1.0.0-Beta]", "[1.0.0-BETA.2,1.0.0-rc.1)", "1.0.0-Beta")
 	case semver.Cargo:
 		out = append(out, ">1.2.9223372036854775806", ">=1.2.9223372036854775806")
 	}
